@@ -110,6 +110,23 @@ def worlds(tier):
             w["reads"] = [dict(r, sample=sn) for sn in ("S1", "S2") for r in w["reads"]]
             w["two_samples"] = True
             yield inst
+    # further chromosomes on the same coordinate grid on which nothing can be phased: chrB has no reads, chrC has
+    # reads but a single heterozygous variant (per-chromosome state must not carry over)
+    for p, k in [(2, 3), (3, 3), (4, 3)] + ([(3, 4)] if T else []):
+        mats = list(hap_matrices(p, k))
+        mats = mats[:: max(1, len(mats) // (100 if T else 30))]
+        for m in mats:
+            for dname, reads in read_designs(p, k, T)[:2]:
+                for tag in ("PS", "HP"):
+                    inst = mk(seed, p, k, m, dname, reads, dict(block_cut_sensitivity=4, tag=tag))
+                    w = inst["world"]
+                    ca = w["chroms"][0]
+                    w["chroms"] = [ca, dict(ca, name="chrB"), dict(ca, name="chrC")]
+                    e = w["haps"]["S1"]["chrA"]
+                    w["haps"]["S1"]["chrB"] = [list(x) for x in e]
+                    w["haps"]["S1"]["chrC"] = [list(e[0])] + [[1] * p for _ in e[1:]]
+                    w["reads"] += [{"sample": "S1", "chrom": "chrC", "hap": h, "segs": [[0, len(e) - 1, 6, 6]], "n": 2} for h in range(p)]
+                    yield inst
     # pre-phasing and distrust (pass-through clauses only under distrust)
     for p, k in [(3, 4), (4, 3)]:
         mats = list(hap_matrices(p, k))[:: 40 if not T else 10]
@@ -227,6 +244,13 @@ def judge(inst):
             gi, _ = synth.gt_parse(a["calls"][si].get("GT"))
             go, po = synth.gt_parse(b["calls"][si].get("GT"))
             ph = synth.decode_phase(b["calls"][si])
+            if a["chrom"] != "chrA":
+                # chromosomes without two read-connected heterozygous variants: nothing to phase
+                if ph is not None or po:
+                    viols.append(V("phased-uncovered", f"{sname} record {a['chrom']}:{a['pos']}: {b['calls'][si]} is phased although no two heterozygous variants of that chromosome are connected by reads"))
+                if (gi is None) != (go is None) or (gi is not None and sorted(map(str, gi)) != sorted(map(str, go))):
+                    viols.append(V("genotype", f"{sname} record {a['chrom']}:{a['pos']}: GT {a['calls'][si].get('GT')} -> {b['calls'][si].get('GT')}"))
+                continue
             if not distrust:
                 if (gi is None) != (go is None) or (gi is not None and sorted(map(str, gi)) != sorted(map(str, go))):
                     viols.append(V("genotype", f"{sname} record {a['pos']}: GT {a['calls'][si].get('GT')} -> {b['calls'][si].get('GT')}: alleles / multiplicities differ"))
@@ -249,6 +273,8 @@ def judge(inst):
         covered = set()
         for r in world["reads"]:
             if r["sample"] != sname:
+                continue
+            if r["chrom"] != "chrA":
                 continue
             a_, b_ = r["segs"][0][0], r["segs"][0][1]
             covered.update(i for i in het if a_ <= i <= b_)
